@@ -370,7 +370,7 @@ func (c *c05Checker) After(w *World, ev *Event) []Failure {
 		return nil
 	}
 	name := modelSetterNames[ev.Op.W%9]
-	if uh.M.Set(name, string(ev.Op.A)) == model.Unsupported {
+	if uh.M.Set(name, ev.Val) == model.Unsupported {
 		uh.MDead = true
 		c.trunc = true
 		return nil
@@ -379,8 +379,8 @@ func (c *c05Checker) After(w *World, ev *Event) []Failure {
 	if f, a, b := diffPrimary(o.Primary(), modelPrimary(uh.M)); f != "" {
 		uh.MDead = true
 		c.stop = true
-		return []Failure{fail("C05.refine", "setter", name, "value", q(string(ev.Op.A)), "field", f, "real", q(a), "standard", q(b), "before", q(w.Prev[ev.Target].Href),
-			"tab-newline-removal-joins-utf8", fmt.Sprint(tabRemovalJoinsUTF8(string(ev.Op.A))))}
+		return []Failure{fail("C05.refine", "setter", name, "value", q(ev.Val), "field", f, "real", q(a), "standard", q(b), "before", q(w.Prev[ev.Target].Href),
+			"tab-newline-removal-joins-utf8", fmt.Sprint(tabRemovalJoinsUTF8(ev.Val)))}
 	}
 	return nil
 }
